@@ -207,6 +207,7 @@ def main(tier, seed):
     nb = 16 if q else 64
     batches = [{"cases": cases[i::nb]} for i in range(nb)]
     acc = harness.run_workers("checks.c07_base_answers", "run_batch", batches, 3400)
+    harness.require_vnet_fidelity(acc)
     return harness.finish(PROP, tier, seed, "exploration", acc, RULE,
                           ["the peer is scripted by the driver task; answers are read from the bytes the node wrote to the substituted socket",
                            "identifier pairs are sampled (boundary + random), not enumerated over 2^64",
